@@ -20,7 +20,7 @@ RULE = ("enum: all strings of length <= 6 (quick) / 7 (thorough) over {A b 1 2 -
         "and '#': parse_label vs regex reference parser (category, function, gap index, co-index, head mark, "
         "is_trace), format(parse(s)) == s up to the documented default literals, always_label/always_gf, and "
         "emptying each of the five components; non-trivial = string contains a separator or marker character "
-        "(distinct by construction: every string is enumerated once per separator). parts/getlabel: Hypothesis "
+        "(distinct by construction: every string is enumerated once per separator); long: random strings of length 7..24, same oracle. parts/getlabel: Hypothesis "
         "labels built from parts and node decorations with all option subsets; non-trivial = at least one "
         "decoration present; distinct by digest.")
 ASSUMPTIONS = ["reference parser in checks/C20.py encodes the grammar in parse_label's docstring: optional trailing ', then "
@@ -270,3 +270,18 @@ def gen_getlabel(ctx):
 UNITS = [Unit("enum", gen_enum, check_string, shards=(9, 9)),
          Unit("parts", gen_parts, check_parts, shards=(1, 4)),
          Unit("getlabel", gen_getlabel, check_getlabel, shards=(1, 2))]
+
+
+def gen_long(ctx):
+    """random longer strings over the same nine characters plus letters (length up to 24), same oracle as enum"""
+    strategy = st.fixed_dictionaries({"s": st.text(alphabet=ALPHABET + "NPS-=-", min_size=7, max_size=24), "sep": st.sampled_from(["-", "#"])})
+
+    def body(case):
+        check_string(case)
+        ctx.count(key=case, nontrivial=True, classes=["long:len>=%d" % (8 * (len(case["s"]) // 8))])
+        if len(ctx.samples) < 1:
+            ctx.sample({"s": case["s"], "parsed_as": refparse(case["s"], case["sep"])})
+    ctx.hyp(strategy, body, max_examples=4000 if ctx.tier == "quick" else 40000)
+
+
+UNITS.append(Unit("long", gen_long, check_string, shards=(1, 4)))
